@@ -122,6 +122,7 @@ type Spec struct {
 	TTL       uint32
 	XHeaders  [][2]string
 	Trusted   bool // sent over a mutually authenticated connection without verification header (TTL 1)
+	Late      bool // GET/HEAD only: served by Env.ServerLate (object headers unavailable to eACL at request time)
 
 	Raw         bool
 	PayloadOnly bool
@@ -150,7 +151,7 @@ type Spec struct {
 // Fingerprint identifies the normalised spec for distinct counting.
 func (s Spec) Fingerprint() string {
 	return fmt.Sprintf("%v|c%d o%d r%d s%d v%d t%d x%v tr%v|%v %v %d %d %d|%d %v %d|%d %d %q %v|%d %v %v %v|%v %d",
-		s.Op, s.Cnr, s.Obj, s.Requester, s.Scheme, s.Version, s.TTL, s.XHeaders, s.Trusted,
+		s.Op, s.Cnr, s.Obj, s.Requester, s.Scheme, s.Version, s.TTL, s.XHeaders, [2]bool{s.Trusted, s.Late},
 		s.Raw, s.PayloadOnly, s.RangeKind, s.RangeOff, s.RangeLen,
 		s.SearchCount, s.SearchFilters, s.SearchAttrs,
 		len(s.PutPayload), s.PutChunks, s.PutAttr, s.PutTombstone,
@@ -176,6 +177,9 @@ func (s Spec) String() string {
 		extra = fmt.Sprintf(" count=%d filters=%v attrs=%d", s.SearchCount, s.SearchFilters, s.SearchAttrs)
 	case OpPut:
 		extra = fmt.Sprintf(" payload=%dB chunks=%d attr=%q tombstone=%v", len(s.PutPayload), s.PutChunks, s.PutAttr, s.PutTombstone)
+	}
+	if s.Late {
+		extra += " server=late"
 	}
 	return fmt.Sprintf("%v cnr=%s obj=%s by=%s scheme=%s api=%d.%d ttl=%d trusted=%v xhdr=%v session=%d(bindObj=%v) bearer=%v(forUser=%v)%s DEFECT=%v(arg %d)",
 		s.Op, cn, on, rn, sn, v[0], v[1], s.TTL, s.Trusted, s.XHeaders, s.Session, s.SessionBindObj, s.Bearer, s.BearerForUser, extra, s.Defect, s.DefectArg)
@@ -215,6 +219,18 @@ func Normalize(s Spec) Spec {
 		s.Obj = ObjPlain
 	}
 	d := s.Defect
+	s.Late = (s.Late && (s.Op == OpGet || s.Op == OpHead) && d != DefEACLObjectAttr) || d == DefEACLHeader
+	if s.Op == OpGet {
+		if s.RangeKind == RangeOffLen && s.RangeLen == 0 {
+			s.RangeOff = 0
+		}
+		if s.RangeKind == RangeNone || s.RangeKind == RangeExtSuffix {
+			s.RangeOff = 0
+		}
+		if s.RangeKind == RangeNone || s.RangeKind == RangeExtFrom {
+			s.RangeLen = 0
+		}
+	}
 
 	// tokens: present only where they can be valid, or where their defect is the subject
 	if d.IsSession() {
@@ -345,6 +361,31 @@ func Normalize(s Spec) Spec {
 	}
 	if s.Op == OpRange && s.RangeLen == 0 {
 		s.RangeOff = 0
+	}
+	// fields that do not belong to the operation are zeroed (honest fingerprints)
+	if s.Op != OpGet {
+		s.PayloadOnly, s.RangeKind = false, RangeNone
+		if s.Op != OpRange {
+			s.RangeOff, s.RangeLen = 0, 0
+		}
+	}
+	if s.Op != OpGet && s.Op != OpHead && s.Op != OpRange {
+		s.Raw = false
+	}
+	if s.Op != OpSearch {
+		s.SearchCount, s.SearchFilters, s.SearchAttrs = 0, nil, 0
+	}
+	if s.Op != OpPut {
+		s.PutPayload, s.PutChunks, s.PutAttr, s.PutTombstone = nil, 0, "", false
+	}
+	if s.Session == SessionNone || !s.Op.HasObject() || s.Session == SessionV2 {
+		s.SessionBindObj = false
+	}
+	if !s.Bearer {
+		s.BearerForUser = false
+	}
+	if s.Trusted {
+		s.Scheme = SchemeSHA512
 	}
 	return s
 }
